@@ -240,6 +240,9 @@ def _loop1_inv(ctx):
     out.append(("notl-is-sum-abs-children", value_same(st.locals["notl_val"], sums["N"].value(st, i))))
     out.append(("bidoffer-is-sum-children", value_same(st.locals["bidoffer_paid"], sums["B"].value(st, i))))
     out.append(("coupons-is-sum-swept", value_same(st.locals["coupons"], sums["C"].value(st, i))))
+    # parked coupons are swept only on a date change (needed for C08 a: a redundant update leaves cash alone)
+    newpt = ctx.entry.locals["newpt"]
+    out.append(("nothing-swept-without-a-date-change", Implies(Not(newpt) if not isinstance(newpt, bool) else (not newpt), sums["C"].value(st, i).eq(0))))
     return out
 
 
@@ -619,6 +622,19 @@ def verify_update(ex, contract, timeout_ms=30000, restrict=None, variant=None):
                     if c[0].endswith(".update") and c in pcalls[:3]:
                         ob("paper:stepped-on-the-same-date", Implies(paper, c[2][0].eq(date)), ("C09",))
                 ob("paper:never-stepped-for-a-root", Implies(Not(paper), len(core) == 0), ("C09",))
+                # C08 (a): a redundant update changes nothing on the node itself.  Precondition = what an earlier update(date) leaves behind and the
+                # children still sum to: same date, tree not stale, recorded value / notional / spread equal cash + the children's current sums,
+                # the rows of the date equal the scalars.  (The children's own idempotence is their contract: security lemma + recursion, A-IND.)
+                rtE = E.get(self, "root")
+                idem = And(Not(newpt0), Not(E.get(rtE, "stale")), value_same(E.get(self, "_value"), capE + V), value_same(E.get(self, "_notl_value"), Nn), rows_ok_E,
+                           value_same(E.hist_get(self, "_cash", i_eff), capE), value_same(E.hist_get(self, "_fees", i_eff), E.get(self, "_last_fee")),
+                           value_same(E.hist_get(self, "_all_flows", i_eff), E.get(self, "_net_flows")), Not(paper),
+                           Implies(E.get(self, "_bidoffer_set"), And(value_same(E.get(self, "_bidoffer_paid"), B), value_same(E.hist_get(self, "_bidoffers_paid", i_eff), B))))
+                for fld in ("_value", "_notl_value", "_price", "_capital", "_net_flows", "_last_value", "_last_notl_value", "_last_price", "_last_fee", "now", "_bidoffer_paid"):
+                    ob("idempotent:%s" % fld, Implies(idem, value_same(F.get(self, fld), E.get(self, fld))), ("C08",))
+                ob("idempotent:bankrupt-flag", Implies(idem, F.get(self, "bankrupt") == E.get(self, "bankrupt")), ("C08", "C16"))
+                for hf in STRAT_HIST:
+                    ob("idempotent:row:%s" % hf, Implies(idem, value_same(F.hist_get(self, hf, i_eff), E.hist_get(self, hf, i_eff))), ("C08",))
                 # C08 append-only: own buffers change at most at row inow
                 for hf in STRAT_HIST:
                     o = _skolem_hist_frame(F, E, self, hf, i_eff, "%s/append-only:%s" % (fname, hf), st.pc, ("C08",))
